@@ -44,6 +44,14 @@ CHECKS = {
    text="Proof (Coq), for ANY byte string: a returned member consumed >= 60 bytes, came from a header with both magic bytes, has a non-negative size and a reader of exactly that many bytes; at most one step per 60 input bytes; the loop never runs out of fuel (one unit per input byte), so it ends in not-an-archive, end-of-archive or an error; loading as a package gives the same outcome for any order of walking the member map and uses only such members (C15.v: 6 theorems, closed; tar/decompressors/control decoding are oracles). Tie: every numeric column of every header set to hostile text, every truncation point, magic bytes flipped, duplicated/reordered members, random mutations and raw bytes, with the property's predicate evaluated on the implementation's answers and repeated loads compared; .deb loading on stored and gzip members.",
    note="Trusted: as C01. Absence of panics in the real readers is observed by the tie (recover + watchdog), not proved about Go. Third-party decoders on hostile streams are outside the claim.",
    technique="Coq proof (progress measure / fuel sufficiency) + differential correspondence and predicate evaluation on hostile inputs", ref="5/C15"),
+ "C17": dict(
+   text="Proof (Coq): a changelog of dpkg-format entries (any number of empty lines before each entry and at the end) parses to exactly one entry per block, in order, with source, version, distributions, option pairs, verbatim text, maintainer and date; and for ANY input, when Parse succeeds every header line has produced an entry - so truncated or malformed input gives all entries or an error, never a shortened list; None is an error, never fuel exhaustion (C17.v: 3 theorems, generic in the version and date oracles, closed). Tie: changelog.Parse vs the model on generated changelogs (expected entries computed independently, dates via Python datetime), EVERY truncation point of a sample of them, and header/trailer/date mutations; the date oracle is time.Parse asked directly.",
+   note="Trusted: as C01. time.Parse(RFC1123Z) is an oracle (cross-checked against Python email.utils in the evidence); version.Parse is the C03 model. C17_parse_render is stated for text with a final newline; the missing-final-newline case is covered by C17_never_silently_shortened and the tie.",
+   technique="Coq proof (header-count invariant over arbitrary input; parser o renderer composition) + differential correspondence against changelog.Parse", ref="5/C17"),
+ "C19": dict(
+   text="Proof (Coq): when OrderDSCForBuild returns an order it is a permutation of the input in which every source comes after the provider (last source listing the binary) of each binary picked from its three build-dependency fields; when it reports a cycle no topological order exists; the pass loop never runs out of fuel (C19.v: 5 theorems incl. the generic topsort statements, closed). Tie: random graphs over 1-12 sources rendered as .dsc text with folded Binary / Build-Depends, parsed by ParseDsc and ordered for two architectures, compared with the model's whole text-to-order pipeline and with a graph-level oracle in the driver (permutation, providers first, error iff cyclic, same on re-run).",
+   note="Trusted: as C01. pault.ag/go/topsort v0.1.1 is modelled (TS.sort), not verified beyond the tie. Sources are identified by position (distinct names). The text-to-graph path composes the C07/C10/C04/C06 models (TS3, definitions only).",
+   technique="Coq proof (invariant over sorting passes; first-element argument for cycles) + differential correspondence from .dsc text", ref="5/C19"),
 }
 NOT_YET = {}
 
